@@ -6,9 +6,9 @@ import AdaptiveProofs.Lemmas.L1DScale
 # Learner1D model: the in-bounds invariants along valid histories
 
 A *valid history* is a list of operations in which every told / pending point lies inside the
-domain `[lo, hi]`, and in which the batch path of `tell_many` is only taken once both end points of
-the domain are known, pending, or told in the batch itself (`ValidOp`, `ValidOps`).  Along such
-histories
+domain `[lo, hi]`, and in which the batch path of `tell_many` is never taken with an empty list of
+points (`ValidOp`, `ValidOps`; the real code raises on a forced empty batch of an empty learner:
+`np.array([]).min()`).  Along such histories
 
 * `lo`, `hi` never change (`step_lo`, `step_hi`, `run_lo`, `run_hi`);
 * `BInv` holds: `lo < hi`, every evaluated-or-pending point is in `[lo, hi]`, the abscissa bounding
@@ -18,6 +18,14 @@ histories
   (`ask_props`, `ask_proviso`, `ask_props_run`, `ask_length_run`).
 
 All statements are for arbitrary `lossFn`, `r12`, over an arbitrary linearly ordered field.
+
+History of the definition.  Before the repair `fix: Learner1D.tell_many batch path shrank the x-scale
+to the range of the points` the batch path set the x bounding box to the range of the points it knew,
+and `ValidOp` had to carry the proviso "the batch path is only taken once both end points of the
+domain are known, pending, or told in the batch itself" to keep `scaleX = lossScale = hi - lo`.  Since
+the repair the box of the batch path always contains the domain (like `_update_scale`), and the
+proviso is gone: for a non-empty list `xsC` all of whose elements lie in `[lo, hi]`,
+`lo ≤ head`, `last ≤ hi`, hence `bboxX = (lo, hi)` (`box_of_in_bounds`, `binv_batchBase`).
 -/
 set_option linter.unusedSectionVars false
 namespace L1D
@@ -25,17 +33,18 @@ variable {α : Type} [Field α] [LinearOrder α] [IsStrictOrderedRing α]
 
 /-! ## statement-level definitions -/
 
-/-- an operation of a valid history in state `s`.
-(The conjunct `pts ≠ []` of the batch case is part of the property's quantifier; the proofs below do
-not use it: `binv_tellManyBatch` only needs the in-bounds and the end-point conditions.) -/
+/-- an operation of a valid history in state `s`: every told / pending point lies inside the domain,
+and the batch path of `tell_many` is not taken with an empty list of points (the real code raises
+on `tell_many([], [], force=True)` of an empty learner; `pts ≠ []` makes the abscissa list `xsC` of
+the batch state non-empty, which is all `binv_batchBase` needs).  There is NO condition on the end
+points of the domain any more (it was needed before the repair
+`fix: Learner1D.tell_many batch path shrank the x-scale to the range of the points`). -/
 def ValidOp (s : State α) : Op α → Prop
   | .tell x _ => s.lo ≤ x ∧ x ≤ s.hi
   | .tellPending x => s.lo ≤ x ∧ x ≤ s.hi
   | .tellMany pts force => (∀ kv ∈ pts, s.lo ≤ kv.1 ∧ kv.1 ≤ s.hi) ∧
-      -- when the batch path is taken both end points are known or pending afterwards
-      ((force = true ∨ (s.data.length < 2 * pts.length ∧ 2 < pts.length)) →
-         (∀ b, (b = s.lo ∨ b = s.hi) →
-            (hasData s b = true ∨ b ∈ s.pending ∨ ∃ kv ∈ pts, kv.1 = b)) ∧ pts ≠ [])
+      -- when the batch path is taken the batch is not empty
+      ((force = true ∨ (s.data.length < 2 * pts.length ∧ 2 < pts.length)) → pts ≠ [])
   | .removeUnfinished => True
   | .ask _ _ => True
 
@@ -254,16 +263,32 @@ theorem binv_ask {s : State α} (hI : Inv s) (hb : BInv s) (n : Nat) (c : Bool) 
 
 /-! ### the batch path -/
 
-/-- in a strictly sorted list whose elements lie in `[lo, hi]` and which contains both `lo` and
-`hi`, the head is `lo` and the last element is `hi` -/
-theorem sorted_head_last {l : List α} (hs : l.Pairwise (· < ·)) {lo hi : α} (hlo : lo ∈ l)
-    (hhi : hi ∈ l) (hin : ∀ z ∈ l, lo ≤ z ∧ z ≤ hi) (d : α) :
-    l.headD d = lo ∧ l.getLastD d = hi := by
-  constructor
-  · rw [List.headD_eq_head?_getD, (head?_sorted hs).2 ⟨hlo, fun z hz => (hin z hz).1⟩]
-    rfl
-  · rw [List.getLastD_eq_getLast?, (getLast?_sorted hs).2 ⟨hhi, fun z hz => (hin z hz).2⟩]
-    rfl
+/-- the x bounding box computed by the batch path from a NON-EMPTY list all of whose elements lie in
+`[lo, hi]` is the domain: `lo ≤ head`, `last ≤ hi` (no sortedness needed) -/
+theorem box_of_in_bounds {l : List α} (hne : l ≠ []) {lo hi : α}
+    (hin : ∀ z ∈ l, lo ≤ z ∧ z ≤ hi) (d : α) :
+    ((if lo < l.headD d then lo else l.headD d), (if l.getLastD d < hi then hi else l.getLastD d)) =
+      (lo, hi) := by
+  have h1 : l.headD d ∈ l := by
+    cases l with
+    | nil => exact absurd rfl hne
+    | cons a r => exact List.mem_cons_self
+  have h2 : l.getLastD d ∈ l := by
+    rw [List.getLastD_eq_getLast?]
+    cases hl : l.getLast? with
+    | none => exact absurd (List.getLast?_eq_none_iff.1 hl) hne
+    | some z => exact List.mem_of_getLast? hl
+  have e1 : (if lo < l.headD d then lo else l.headD d) = lo := by
+    split
+    · rfl
+    · rename_i h
+      exact le_antisymm (not_lt.1 h) (hin _ h1).1
+  have e2 : (if l.getLastD d < hi then hi else l.getLastD d) = hi := by
+    split
+    · rfl
+    · rename_i h
+      exact le_antisymm (hin _ h2).2 (not_lt.1 h)
+  rw [e1, e2]
 
 theorem any_key_iff {pts : List (α × List α)} {p : α} :
     pts.any (fun kv => decide (kv.1 = p)) = true ↔ p ∈ dkeys pts := by
@@ -280,13 +305,23 @@ theorem mem_batchBase_xsC {s : State α} (hI : Inv s) (pts : List (α × List α
   rw [hx, mem_sortList, List.mem_append, List.mem_filter, d2 z, Bool.not_eq_true', ← any_key_iff,
     Bool.not_eq_true]
 
+/-- a non-empty batch gives a non-empty abscissa list -/
+theorem batchBase_xsC_ne_nil {s : State α} (hI : Inv s) {pts : List (α × List α)}
+    (hne : pts ≠ []) : (batchBase s pts).xsC ≠ [] := by
+  obtain ⟨kv, hkv⟩ := List.exists_mem_of_ne_nil _ hne
+  have : kv.1 ∈ (batchBase s pts).xsC :=
+    (mem_batchBase_xsC hI pts kv.1).2 (Or.inr (Or.inl (List.mem_map.2 ⟨kv, hkv, rfl⟩)))
+  exact List.ne_nil_of_mem this
+
+/-- The batch base state of a batch of in-bounds points has `BInv`, as soon as it holds at least one
+point (`hne`; for `pts ≠ []` see `batchBase_xsC_ne_nil`).  No condition on the end points of the
+domain: the x bounding box of the batch path contains the domain since the repair
+`fix: Learner1D.tell_many batch path shrank the x-scale to the range of the points`. -/
 theorem binv_batchBase {s : State α} (hI : Inv s) (hb : BInv s) (pts : List (α × List α))
     (hin : ∀ kv ∈ pts, s.lo ≤ kv.1 ∧ kv.1 ≤ s.hi)
-    (hend : ∀ b, (b = s.lo ∨ b = s.hi) →
-      (hasData s b = true ∨ b ∈ s.pending ∨ ∃ kv ∈ pts, kv.1 = b)) :
+    (hne : (batchBase s pts).xsC ≠ []) :
     BInv (batchBase s pts) := by
   have hmem := mem_batchBase_xsC hI pts
-  have hsorted : (batchBase s pts).xsC.Pairwise (· < ·) := sorted_sortList _
   -- everything is in bounds
   have hall : ∀ z ∈ (batchBase s pts).xsC, s.lo ≤ z ∧ z ≤ s.hi := by
     intro z hz
@@ -295,22 +330,10 @@ theorem binv_batchBase {s : State α} (hI : Inv s) (hb : BInv s) (pts : List (α
     · obtain ⟨kv, hkv, rfl⟩ := List.mem_map.1 h
       exact hin kv hkv
     · exact hb.xsC_in z ((hI.xsC_mem z).2 (Or.inl (hasData_iff_ask.2 h)))
-  -- both end points are there
-  have hends : ∀ b, (b = s.lo ∨ b = s.hi) → b ∈ (batchBase s pts).xsC := by
-    intro b hbb
-    rw [hmem b]
-    rcases hend b hbb with h | h | ⟨kv, hkv, rfl⟩
-    · exact Or.inr (Or.inr (hasData_iff_ask.1 h))
-    · by_cases hk : b ∈ dkeys pts
-      · exact Or.inr (Or.inl hk)
-      · exact Or.inl ⟨h, hk⟩
-    · exact Or.inr (Or.inl (List.mem_map.2 ⟨kv, hkv, rfl⟩))
-  obtain ⟨e1, e2⟩ := sorted_head_last hsorted (hends s.lo (Or.inl rfl)) (hends s.hi (Or.inr rfl))
-    hall 0
   have eb : (batchBase s pts).bboxX = (s.lo, s.hi) := by
     show ((if s.lo < (batchBase s pts).xsC.headD 0 then s.lo else (batchBase s pts).xsC.headD 0),
       (if (batchBase s pts).xsC.getLastD 0 < s.hi then s.hi else (batchBase s pts).xsC.getLastD 0)) = _
-    rw [e1, e2, if_neg (lt_irrefl _), if_neg (lt_irrefl _)]
+    exact box_of_in_bounds hne hall 0
   have es : (batchBase s pts).scaleX = s.hi - s.lo := by
     show (batchBase s pts).bboxX.2 - (batchBase s pts).bboxX.1 = _
     rw [eb]
@@ -318,11 +341,10 @@ theorem binv_batchBase {s : State α} (hI : Inv s) (hb : BInv s) (pts : List (α
 
 theorem binv_tellManyBatch {s : State α} (hI : Inv s) (hb : BInv s) (pts : List (α × List α))
     (hin : ∀ kv ∈ pts, s.lo ≤ kv.1 ∧ kv.1 ≤ s.hi)
-    (hend : ∀ b, (b = s.lo ∨ b = s.hi) →
-      (hasData s b = true ∨ b ∈ s.pending ∨ ∃ kv ∈ pts, kv.1 = b)) :
+    (hne : (batchBase s pts).xsC ≠ []) :
     BInv (tellManyBatch lossFn r12 s pts) :=
   binv_congr (bview_of_core (core_tellManyBatch lossFn r12 s pts))
-    (binv_batchBase hI hb pts hin hend)
+    (binv_batchBase hI hb pts hin hne)
 
 theorem binv_tellMany {s : State α} (hI : Inv s) (hb : BInv s) {pts : List (α × List α)}
     {force : Bool} (hv : ValidOp s (.tellMany pts force)) :
@@ -336,7 +358,7 @@ theorem binv_tellMany {s : State α} (hI : Inv s) (hb : BInv s) {pts : List (α 
       cases force with
       | true => exact Or.inl rfl
       | false => right; simpa using hc
-    exact binv_tellManyBatch lossFn r12 hI hb pts hin (hbatch hcond).1
+    exact binv_tellManyBatch lossFn r12 hI hb pts hin (batchBase_xsC_ne_nil hI (hbatch hcond))
 
 /-- Target 3. -/
 theorem binv_step {s : State α} (hI : Inv s) (hb : BInv s) {op : Op α} (hv : ValidOp s op) :
@@ -463,5 +485,26 @@ example :
     let s := step (fun _ _ => Loss.fin 0) (id : Rat → Rat) (init (0 : Rat) 1 2 0 0)
       (.tellMany [(1/4, [0]), (3/4, [0])] false)
     s.bboxX = (0, 1) ∧ s.scaleX = 1 ∧ s.lossScale = 1 := by decide +kernel
+
+/-- the history of the non-vacuity example of the brief: bounds `(0, 10)`, a forced batch of the
+interior points 2, 3, 4 only — the box, the input scale and the scale of the tables are the domain's -/
+example :
+    let s := step (fun _ _ => Loss.fin 0) (id : Rat → Rat) (init (0 : Rat) 10 2 0 0)
+      (.tellMany [(2, [0]), (3, [0]), (4, [0])] true)
+    s.bboxX = (0, 10) ∧ s.scaleX = 10 ∧ s.lossScale = 10 := by decide +kernel
+
+/-! ## why `ValidOp` keeps `pts ≠ []` for the batch path
+
+The conjunct is NEEDED in the model: for an empty learner a forced empty batch leaves `xsC = []`, and
+the model's `headD 0` / `getLastD 0` then put the default `0` into the box.  On the domain `[1, 2]`
+this gives `bboxX = (0, 2)` and `scaleX = lossScale = 2 ≠ hi - lo`, so `BInv` fails.  (The real code
+does not get that far: `np.array([]).min()` raises `ValueError`; the model does not mirror the
+exception, so the history is excluded by the quantifier instead.)  A forced empty batch of a learner
+that already holds a point is harmless, which is why `binv_batchBase` asks only for a non-empty
+batch state. -/
+example :
+    let s := step (fun _ _ => Loss.fin 0) (id : Rat → Rat) (init (1 : Rat) 2 2 0 0)
+      (.tellMany [] true)
+    s.bboxX = (0, 2) ∧ s.scaleX = 2 ∧ s.lossScale = 2 ∧ s.hi - s.lo = 1 := by decide +kernel
 
 end L1D
